@@ -922,22 +922,24 @@ def c16_extra(ctx):
             ctx["violations"].append((f"`{text.strip()}` denotes the bytes 0x{want.hex()} but parses to `{y['str']}`",
                                       {"kind": "byte-constant-denotation", "line": text, "version": ver, "expected": f"{toks[0]} 0x{want.hex()}", "got": y["str"]}))
             break
-    # (d) signed immediates of the frame opcodes (int8 in the AVM): OUTSIDE the hand-written model, whose immediates are
-    #     natural numbers (DESIGN section 9) -- decided on the implementation alone: class, printed form, arity, round trip
-    neg = []
-    for mn, cls in (("frame_dig", "FrameDig"), ("frame_bury", "FrameBury")):
-        for kk in sorted({1, 2, 3, 127, 128, rng.randrange(1, 129)}):
-            for deco in ("{} -{}", "  {} -{}", "{} -{} // c", "\t{}\t-{}"):
-                neg.append((deco.format(mn, kk), cls, f"{mn} -{kk}"))
-    _, i3 = corr.run_both([("parseline", f"n{k}", t, [8]) for k, (t, _c, _s) in enumerate(neg)])
-    _, i4 = corr.run_both([("parseline", f"m{k}", st, [8]) for k, (_t, _c, st) in enumerate(neg)])
+    # (d) signed immediates of the frame opcodes (int8 in the AVM).  Since the model reads them (Parse.parse_sint, PSInt)
+    #     they are ordinary generated lines (tools/lines.py signed_frame_lines, kind "rule:SInt:signed"), covered by the
+    #     correspondence and by (b); what stays here is the denotation oracle on the results already computed (no special
+    #     request stream): `frame_dig -k` is FrameDig with offset -k and prints as written
     nneg = 0
-    for k, (t, cls, st) in enumerate(neg):
-        y, z = i3.get(f"n{k}"), i4.get(f"m{k}")
+    for k, (text, ver, kind) in enumerate(ls):
+        if kind != "rule:SInt:signed":
+            continue
+        body = text.split("//")[0].split()
+        if len(body) != 2 or not body[1].startswith("-") or not body[1][1:].isdigit() or body[1][1] == "0":
+            continue
+        y = i1.get(f"l{k}")
         nneg += 1
-        if not isinstance(y, dict) or y.get("cls") != cls or y.get("str") != st or not isinstance(z, dict) or z.get("str") != st:
-            ctx["violations"].append((f"`{t.strip()}` (signed frame offset, valid TEAL v8) should parse to {cls} printing `{st}` and print back; got {y} / reparse {z}",
-                                      {"kind": "signed-frame-immediate", "line": t, "version": 8}))
+        cls = {"frame_dig": "FrameDig", "frame_bury": "FrameBury"}[body[0]]
+        st = f"{body[0]} {body[1]}"
+        if not isinstance(y, dict) or y.get("cls") != cls or y.get("str") != st:
+            ctx["violations"].append((f"`{text.strip()}` (signed frame offset, valid TEAL v8) should parse to {cls} printing `{st}`; got {y}",
+                                      {"kind": "signed-frame-immediate", "line": text, "version": ver}))
             break
     ctx["cov"]["signed_frame_immediate_cases"] = nneg
     ctx["cov"]["spelling_twin_cases"] = nspell
